@@ -59,6 +59,7 @@ _dispatch_wait_for_enqueuer(void **ptr)
 		if (likely(value = os_atomic_load(ptr, relaxed))) {
 			return value;
 		}
+		DISPATCH_VERIF_PROBE(17);
 		dispatch_hardware_pause();
 	}
 #endif
